@@ -28,10 +28,9 @@ FailedOf(c, verdict, parts) ==
 (* the answer is a function of the request, the document and the options of THIS call                                 *)
 (* history: every further validation (RequestCheck!View) is judged by the same contract on the case as that call sees it *)
 StepsOf(line) == IF "steps" \in DOMAIN line THEN line.steps ELSE <<>>
-PrevStep(c, i) == IF i = 1 THEN StepOf(c, "first") ELSE c.hist[i - 1]
 HistFailed(c, steps) ==
    IF Len(steps) # Len(c.hist) THEN {"history_realised"}
-   ELSE UNION {(IF StepWellFormed(c, PrevStep(c, i), c.hist[i]) THEN {} ELSE {"history_wellformed"})
+   ELSE UNION {(IF StepWellFormed(c, CurAt(c, i), c.hist[i]) THEN {} ELSE {"history_wellformed"})
                \cup (IF FailedOf(View(c, c.hist[i]), steps[i].verdict, steps[i].parts) # {}
                      THEN {"answer_follows_the_route_and_document_of_this_call"} ELSE {}) : i \in DOMAIN c.hist}
 
